@@ -180,6 +180,10 @@ Exec(w, call) ==
     \* the store is rewritten into the 1.0.0 layout and migrated to 1.1.0 again (Migration.tla): on the
     \* abstract state this is the identity, so that the history simply continues across the upgrade
     [] call.m = "migrate_roundtrip" -> IF call.eligible THEN Done(w, << >>) ELSE Refused(w, {"not_expressible_in_legacy_layout"})
+    \* the configuration is rewritten into the 0.4.20 layout (stored version 0.4.20) and migrated by the 0.4.20 -> 1.0.0 path:
+    \* the identity on the abstract state as well - everything the contract does afterwards (the denom it mints and burns,
+    \* where fees go, who may deliver) must be what it was
+    [] call.m = "migrate_from_0_4_20" -> Done(w, << >>)
 
 ---------------------------------------------------------------------------
 \* The world right after instantiate (contract.rs instantiate + token-factory create-denom)
@@ -279,6 +283,19 @@ Act_C04(w, w1, call) ==
 Act_C04s(w, w1) ==
   ((w1.c.L > w.c.L \/ Len(w1.c.batches) > Len(w.c.batches)) /\ w.c.L > 0 /\ w1.c.L > 0)
     => RatLeq(w.c.N, w.c.L, w1.c.N, w1.c.L)
+
+\* C11 in its own words, on one accepted reward of amount a (the rewards counter grows by a): what is restaked, what is
+\* paid to the treasury in the same transaction and what accrues add up to a; with a treasury nothing accrues, without
+\* one nothing is paid; and a reward is never accepted while no LST exists. `msgs` are the messages of the transaction.
+Act_C11(w, w1, msgs) ==
+  LET a == w1.c.rewards - w.c.rewards
+      paid == LET S == {i \in DOMAIN msgs : msgs[i].k = "send" /\ msgs[i].den = w.c.cfg.natDen /\ msgs[i].to = w.c.cfg.treasury}
+              IN MapThenSumSet(LAMBDA i : msgs[i].amt, S)
+  IN a > 0 =>
+       /\ w.c.L > 0
+       /\ (w1.c.N - w.c.N) + (w1.c.fees - w.c.fees) + paid = a
+       /\ (w.c.cfg.treasury # "" => w1.c.fees = w.c.fees)
+       /\ (w.c.cfg.treasury = "" => paid = 0)
 
 \* C11: fee bookkeeping is never negative
 Inv_C11(w) == w.c.fees >= 0 /\ w.c.rewards >= 0
